@@ -121,6 +121,9 @@ type Conn struct {
 	waiting atomic.Bool
 	Reads   atomic.Int64
 	Writes  atomic.Int64
+	// EOFWithData: a Read that hands over the last buffered bytes of a closed stream
+	// returns them together with io.EOF (instead of EOF on the next call)
+	EOFWithData atomic.Bool
 	local   addr
 	remote  addr
 }
@@ -165,6 +168,11 @@ func (c *Conn) Read(p []byte) (int, error) {
 			}
 			n = copy(p[:n], h.buf)
 			h.buf = h.buf[n:]
+			if c.EOFWithData.Load() && h.wclosed && len(h.buf) == 0 {
+				// io.Reader allows it, and buffered / tunnelled transports do it: the last
+				// bytes and the end of the stream arrive in one call
+				return n, io.EOF
+			}
 			return n, nil
 		}
 		if h.wclosed {
